@@ -24,14 +24,17 @@ PROPS = {
         "level_text": "Theorems (all include graphs, every topological order and per-edge include order): every non-excluded task "
                       "reachable along an include path is a key of the merged table under its full namespace path with its "
                       "commands (C08_present, C08_default_alias, C08_aliases); local references are renamed like the task they "
-                      "name at any depth (C08_refs); ':'-references: depth-1 theorem, full statement refuted by two machine-checked "
-                      "counterexamples (depth 2, flatten); every field survives the copy (C08_attrs over Gen.Fields); name clash, "
+                      "name at any depth (C08_refs); a ':'-prefixed reference written anywhere (root file, any include depth, any mix "
+                      "of flattened levels) ends up as the root's task name (C08_root_ref_full by induction over the include path, "
+                      "C08_root_ref_graph for the whole-graph merge; the renaming rule itself is pinned in the regenerated Gen.Load "
+                      "by root_ref_rule_in_source); every field survives the copy (C08_attrs over Gen.Fields); name clash, "
                       "cycle, missing file, version mismatch, dotenv are errors and keys stay distinct (C08_conflict, "
                       "C08_no_overwrite[_graph], C08_cycle, C08_missing, C08_version, C08_dotenv, C08_loaded_is_acyclic). "
                       "Tie: generated include trees loaded through Executor.Setup, merged table, global vars, error class and a "
-                      "CompiledTask probe compared with the model's load.",
+                      "CompiledTask probe compared with the model's load; trees with ':'-references are also compared with the "
+                      "independent root-reference monitor load.refs.",
         "level_note": "Trusted: Lean kernel; harness serialiser/decoder (round-trip checked per case); id order = location order. "
-                      "Open: ':'-references at depth >= 2 and inside flattened includes do not reach the root task.",
+                      "The two former ':'-reference findings (depth >= 2, flatten) are fixed by F32; their witnesses are in the corpus.",
     },
     "C09": {
         "lean": "Props.C09",
@@ -430,82 +433,6 @@ FINDING_PREDICATES = {
     "C19-no-value-text-deleted": _c19_no_value_deleted,
 }
 
-
-def _hexname(tok):
-    return "" if tok == "-" else bytes.fromhex(tok).decode("utf-8", "replace")
-
-
-def _parse_refs(line):
-    """`ok n (T key L loc R k name*)*` -> list of (key, loc, [targets]) or None."""
-    t = line.split(" ")
-    if len(t) < 2 or t[0] != "ok":
-        return None
-    out, i = [], 2
-    try:
-        while i < len(t):
-            if t[i] != "T" or t[i + 2] != "L" or t[i + 4] != "R":
-                return None
-            key, loc, k = _hexname(t[i + 1]), int(t[i + 3]), int(t[i + 5])
-            out.append((key, loc, [_hexname(x) for x in t[i + 6:i + 6 + k]]))
-            i += 6 + k
-    except (IndexError, ValueError):
-        return None
-    return out
-
-
-def _root_ref_diffs(m):
-    """Classify every position where the implementation's reference target differs from the
-    demanded one in a `load.refs` case: 'depth2' (':x' written in a file merged through two or
-    more namespaces resolved to '<outer ns>:x'), 'flatten' (':x' left as ':x'), or 'other'."""
-    case = m.get("case") or {}
-    if m.get("domain") not in ("load", "loadrep") or case.get("op") != "refs":
-        return None
-    a, b = _parse_refs(m["impl"]), _parse_refs(m["model"])
-    if a is None or b is None or len(a) != len(b):
-        return None
-    files = {f["id"]: f for f in case.get("files", [])}
-    kinds = []
-    for (ka, la, ra), (kb, lb, rb) in zip(a, b):
-        if ka != kb or la != lb or len(ra) != len(rb):
-            return None
-        f = files.get(la)
-        if f is None:
-            return None
-        local = ka.split(":")[-1]
-        tasks = [t for t in f.get("tasks", []) if t["name"] == local]
-        if len(tasks) != 1:
-            return None
-        orig = list(tasks[0].get("deps", [])) + [c["task"] for c in tasks[0].get("cmds", []) if c.get("task")]
-        if len(orig) != len(ra):
-            return None
-        for o, x, y in zip(orig, ra, rb):
-            if x == y:
-                continue
-            if not o.startswith(":") or la == case.get("root") or y != o[1:]:
-                kinds.append("other")
-            elif x == o:
-                kinds.append("flatten")
-            elif x.endswith(":" + o[1:]) and not x.startswith(":") and ka.startswith(x[:-len(o[1:])]) and ka.count(":") >= 2:
-                kinds.append("depth2")
-            else:
-                kinds.append("other")
-    return kinds
-
-
-def _pred_root_ref_depth2(m):
-    k = _root_ref_diffs(m)
-    return bool(k) and "other" not in k and "depth2" in k
-
-
-def _pred_root_ref_flatten(m):
-    k = _root_ref_diffs(m)
-    return bool(k) and all(x == "flatten" for x in k)
-
-
-FINDING_PREDICATES.update({
-    "C08-root-ref-depth2": _pred_root_ref_depth2,
-    "C08-root-ref-flatten": _pred_root_ref_flatten,
-})
 
 def _mon(m, prop):
     """facts of a `finger.mon <prop> <step> <task>` violation line (None if m is something else)"""
